@@ -90,3 +90,37 @@ M('c15-default-missing', 'C15', CIRC, "        assignment_dict: dict[gate.Label,
   "        assignment_dict: dict[gate.Label, GateState] = dict(assignment)\n\n        queue_", 'C15.DEFAULT')
 M('c15-gt-undefined-first', 'C15', OPS, "_gt: list[GateState] = [\n    False,  # arg1 = False\n    False,\n    False,", "_gt: list[GateState] = [\n    False,  # arg1 = False\n    False,\n    Undefined,", None)
 M('c15-twin-less-defined', 'C15', OPS, "    False,  # arg1 = Undefined\n    Undefined,\n    Undefined,\n]\n\n\ndef and_", "    Undefined,  # arg1 = Undefined\n    Undefined,\n    Undefined,\n]\n\n\ndef and_", None)
+
+# ---------------------------------------------------------------- C02
+M('c02-emplace-no-users', 'C02', CIRC, "        for operand in operands:\n            self._add_user(operand, label)\n\n        self._gates[label] = gate.Gate(label, gate_type, operands, **kwargs)",
+  "        self._gates[label] = gate.Gate(label, gate_type, operands, **kwargs)", 'C02.IDX')
+M('c02-remove-keeps-users-entry', 'C02', CIRC, "        if gate_label in self._gate_to_users:\n            del self._gate_to_users[gate_label]\n\n        del self._gates[gate_label]",
+  "        del self._gates[gate_label]", 'C02.IDX')
+M('c02-remove-no-remove-user', 'C02', CIRC, "        cur_gate = self.get_gate(gate_label)\n        for operand in cur_gate.operands:\n            self._remove_user(operand, gate_label)\n",
+  "        cur_gate = self.get_gate(gate_label)\n", 'C02.IDX')
+M('c02-add-gate-no-inputs', 'C02', CIRC, "        self._gates[new_gate.label] = new_gate\n        if new_gate.gate_type == gate.INPUT:\n            self._inputs.append(new_gate.label)",
+  "        self._gates[new_gate.label] = new_gate", 'C02.IDX')
+M('c02-remove-input-stays', 'C02', CIRC, "        if cur_gate.gate_type == gate.INPUT:\n            self._inputs.remove(gate_label)\n", "", 'C02.IDX')
+M('c02-rename-outputs-first-only', 'C02', CIRC, "            for idx in self.all_indexes_of_output(old_label):\n                self._outputs[idx] = new_label",
+  "            self._outputs[self.index_of_output(old_label)] = new_label", 'C02.IDX')
+M('c02-rename-no-blocks', 'C02', CIRC, "        for block in self.blocks.values():\n            block._rename_gate(old_label, new_label)\n\n        return self", "        return self", 'C02.IDX')
+M('c02-rename-operand-users', 'C02', CIRC, "            operand_users[operand_users.index(old_label)] = new_label", "            pass", 'C02.IDX')
+M('c02-rename-new-exists', 'C02', CIRC, "        if new_label in self._gates:\n            raise CircuitGateAlreadyExistsError()\n", "", 'C02')
+M('c02-replace-inputs-keep-list', 'C02', CIRC, "                self._gates[input_label] = gate.Gate(input_label, new_type)\n                self._inputs.remove(input_label)",
+  "                self._gates[input_label] = gate.Gate(input_label, new_type)", 'C02.IDX')
+M('c02-connect-no-add-user', 'C02', CIRC, "                    for operand in connector_operands:\n                        self._add_user(operand, connector_label)\n", "", 'C02.IDX')
+M('c02-add-gate-no-operand-check', 'C02', CIRC, "        check_label_doesnt_exist(new_gate.label, self)\n        check_gates_exist(new_gate.operands, self)\n", "        check_label_doesnt_exist(new_gate.label, self)\n", 'C02.VALID')
+M('c02-emplace-no-label-check', 'C02', CIRC, "        check_label_doesnt_exist(label, self)\n        check_gates_exist(operands, self)\n\n        return self._emplace_gate", "        check_gates_exist(operands, self)\n\n        return self._emplace_gate", 'C02.VALID')
+M('c02-mark-output-unchecked', 'C02', CIRC, "        check_gates_exist((label,), self)\n        self._outputs.append(label)", "        self._outputs.append(label)", 'C02.VALID')
+M('c02-set-outputs-alias', 'C02', CIRC, "        self._outputs = list(outputs)", "        self._outputs = outputs", 'C02.COPY')
+M('c02-make-block-alias', 'C02', CIRC, "            gates=list(gates),\n            outputs=list(outputs),\n        )\n\n        self._blocks[name] = new_block", "            gates=gates,\n            outputs=list(outputs),\n        )\n\n        self._blocks[name] = new_block", 'C02.COPY')
+M('c02-remove-gate-users-unchecked', 'C02', CIRC, "        check_gates_exist((gate_label,), self)\n        check_gate_has_not_users(gate_label, self)\n        return self._remove_gate(gate_label)", "        check_gates_exist((gate_label,), self)\n        return self._remove_gate(gate_label)", 'C02.VALID')
+M('c02-new-unbalanced-writer', 'C02', CIRC, "    def has_gate(self, label: gate.Label) -> bool:",
+  "    def retype_gate(self, label: gate.Label, new_type: gate.GateType, operands: tuple) -> None:\n        check_gates_exist((label,), self)\n        check_gates_exist(operands, self)\n        self._gates[label] = gate.Gate(label, new_type, operands)\n\n    def has_gate(self, label: gate.Label) -> bool:", 'C02.IDX')
+M('c02-replace-subcircuit-no-cycle-check', 'C02', CIRC, "        check_circuit_has_no_cycles(self)\n\n        return self\n\n    def rename_gate", "        return self\n\n    def rename_gate", 'C02.ACYC')
+M('c02-copy-direct-outputs', 'C02', CIRC, "        new_circuit.set_outputs(self.outputs)\n\n        for block in self.blocks.values():", "        new_circuit._outputs = self.outputs\n\n        for block in self.blocks.values():", 'C02.COPY')
+# twins
+M('c02-twin-star-copy', 'C02', CIRC, "        self._outputs = list(outputs)", "        self._outputs = [*outputs]", None)
+M('c02-twin-validate-via-get-gate', 'C02', CIRC, "        check_gates_exist((label,), self)\n        self._outputs.append(label)", "        self.get_gate(label)\n        self._outputs.append(label)", None)
+M('c02-twin-balanced-writer', 'C02', 'cirbo/core/circuit/utils.py', "def order_list(",
+  "def graft_gate(circuit, label, gate_type, operands):\n    from cirbo.core.circuit import gate as _g\n    for operand in operands:\n        circuit._add_user(operand, label)\n    circuit._gates[label] = _g.Gate(label, gate_type, operands)\n\n\ndef order_list(", None)
